@@ -391,7 +391,7 @@ def run_case(case: dict, case_dir: str) -> dict:
     by_name, env = {}, {}
     for d in case["decls"]:
         if "module" in d:   # two modules that may both define a class of this __name__ (namesakes)
-            by_name[d["name"]] = vars(mods[d["module"]])[d.get("pyname", d["name"])]
+            by_name[d["name"]] = vars(sys.modules[f"c17_m{d['module'] + 1}"])[d.get("pyname", d["name"])]
             _OBJNAME[by_name[d["name"]]] = d["name"]
             continue
         for m in mods:
@@ -799,6 +799,38 @@ def gen_namesake(rng, stream: str) -> dict:
     raise RuntimeError("generator could not produce namesakes")
 
 
+def gen_namesake_missing(rng) -> dict:
+    """Three modules.  m1: Item (and T1).  m3: another class of the __name__ Item, Parent { pit : ["Item"] } and
+    Other { own : ["Item"], t : ["T1"] } with T1 imported under TYPE_CHECKING only.  m2: User { item : ["Item"] } and
+    Child(Parent) { citem : ["Item"] }, where m2 has no class Item and imports m1's under TYPE_CHECKING only.
+    The name the retry has to supply has a namesake: which class it denotes depends on the diagram (open findings C17-e/f)."""
+    variant = rng.choice(["leaf", "whole", "future"])
+
+    def wrap(leaf):
+        r = rng.random()
+        return leaf if r < 0.3 else ("O", leaf) if r < 0.6 else ("K", rng.randint(0, 3), leaf) if r < 0.9 else ("T", leaf)
+
+    def fld(n, ann):
+        return {"name": n, "ann": ann, "default": "value"}
+    decls = [
+        {"name": "Item", "module": 0, "kind": "dataclass", "bases": [], "kw_only": True, "fields": [fld("i0", ("B", 0))]},
+        {"name": "T1", "module": 0, "kind": "dataclass", "bases": [], "kw_only": True, "fields": [fld("t0", ("B", 2))]},
+        {"name": "Item__m3", "pyname": "Item", "module": 2, "kind": "dataclass", "bases": [], "kw_only": True, "fields": [fld("i3", ("B", 1))]},
+        {"name": "Parent", "module": 2, "kind": "dataclass", "bases": [], "kw_only": True, "fields": [fld("pit", wrap(("F", "Item__m3")))]},
+        {"name": "Other", "module": 2, "kind": "dataclass", "bases": [], "kw_only": True, "hidden": ["T1"],
+         "fields": [fld("own", wrap(("F", "Item__m3"))), fld("t", wrap(("F", "T1")))]},
+        {"name": "User", "module": 1, "kind": "dataclass", "bases": [], "kw_only": True, "hidden": ["Item"],
+         "fields": [fld("item", wrap(("F", "Item")))]},
+        {"name": "Child", "module": 1, "kind": "dataclass", "bases": ["Parent"], "kw_only": True, "hidden": ["Item"],
+         "fields": [fld("citem", wrap(("F", "Item")))]},
+    ]
+    pool = [d["name"] for d in decls]
+    classes = rng.sample(pool, rng.randint(3, len(pool)))
+    case = {"kind": "diagram", "stream": "namesake_missing", "variant": variant, "layout": "module", "decls": decls,
+            "classes": classes, "ops": gen_ops(rng, classes) if rng.chance(0.3) else []}
+    return finish_case(case)
+
+
 def gen_program(rng, stream: str) -> dict:
     """stream: 'F' (inside the theorem's fragment), 'shared' (field names shared between classes), 'override'
     (a subclass re-declares an inherited field), 'unsupported' (documented-unsupported annotation forms)."""
@@ -955,12 +987,23 @@ def finish_case(case: dict) -> dict:
             return dict(d, name=py[d["name"]], bases=[py[b] for b in d["bases"]],
                         fields=[dict(f, ann=ty_map_leaf(tt(f["ann"]), lambda l: (l[0], py[l[1]]) if l[0] in ("C", "E", "F", "FL") else l))
                                 for f in d["fields"]])
-        m1 = [rename(d) for d in case["decls"] if d["module"] == 0]
-        m2 = [rename(d) for d in case["decls"] if d["module"] == 1]
-        hidden = sorted({py[h] for d in case["decls"] if d["module"] == 0 for h in d.get("hidden", [])})
-        imp1 = ("if TYPE_CHECKING:\n    from c17_m2 import " + ", ".join(hidden)) if hidden else ""
-        case["modules"] = [{"name": "c17_m1", "source": render_module(m1, case["variant"], "c17_m1", imp1)},
-                           {"name": "c17_m2", "source": render_module(m2, case["variant"], "c17_m2")}]
+        nmod = max(d["module"] for d in case["decls"]) + 1
+        case["modules"] = []
+        for i in range(nmod):
+            mine = [d for d in case["decls"] if d["module"] == i]
+            imports = []
+            # base classes of another module are imported for real; names only annotations need, under TYPE_CHECKING
+            for d in mine:
+                for b in d["bases"]:
+                    owner = next(x for x in case["decls"] if x["name"] == b)
+                    if owner["module"] != i:
+                        imports.append(f"from c17_m{owner['module'] + 1} import {py[b]}")
+            hidden = sorted({h for d in mine for h in d.get("hidden", [])})
+            tc = [f"    from c17_m{next(x for x in case['decls'] if x['name'] == h)['module'] + 1} import {py[h]}" for h in hidden]
+            if tc:
+                imports += ["if TYPE_CHECKING:"] + tc
+            case["modules"].append({"name": f"c17_m{i + 1}", "source": render_module([rename(d) for d in mine], case["variant"],
+                                                                                       f"c17_m{i + 1}", "\n".join(dict.fromkeys(imports)))})
     elif first:
         # classes with hidden names live in c17_m1, which imports the others under TYPE_CHECKING only
         k = max(i for i, d in enumerate(case["decls"]) if d.get("hidden")) + 1
@@ -1073,7 +1116,7 @@ def snippet(case) -> str:
     else:
         src = "import os, sys, tempfile\nd = tempfile.mkdtemp(); sys.path.insert(0, d)\n" + "".join(
             f"open(os.path.join(d, {m['name'] + '.py'!r}), 'w').write({m['source']!r})\n" for m in case["modules"]) + \
-            ("import c17_m1, c17_m2\n" if mod_of else "from c17_m1 import *\nfrom c17_m2 import *\n")
+            ("import " + ", ".join(m["name"] for m in case["modules"]) + "\n" if mod_of else "from c17_m1 import *\nfrom c17_m2 import *\n")
     classes = ", ".join(cref(c) for c in case["classes"])
     lines = [src, "from krrood.class_diagrams.class_diagram import ClassDiagram, Association, Inheritance", "import copy",
              f"cd = ClassDiagram([{classes}])",
@@ -1287,6 +1330,10 @@ def check_diagrams(rep, cases: List[dict], model_ok: bool, kf_classes: set, tag:
                 if cls == "other" or (cls == "K_union_none_first" and (cls not in kf_classes or (model_ok and impl != model))):
                     rep.violation(dict(base, kind="counterexample", part="edges", impl=impl, spec=pyspec, model=model,
                                        explanation="differs from the independent reading in a way no listed class explains"))
+        elif st == "namesake_missing" and reference is not None and impl != reference and model_ok and impl == model \
+                and "K_missing_namesake" in kf_classes:
+            # open findings C17-e / C17-f, exactly as the faithful model predicts (Diagram.shadow)
+            dist["kf_instances"]["K_missing_namesake"] = dist["kf_instances"].get("K_missing_namesake", 0) + 1
         elif reference is not None and impl != reference:
             rep.violation(dict(base, kind="counterexample", part="edges", impl=impl, spec=reference, model=model, in_F=in_f,
                                explanation="graph encoding: [0, [nodes in order, sorted edges [kind 0 inh/1 assoc, source, target, field]]] or [1, exception]; names are numbered by case['ids']",
@@ -1384,6 +1431,8 @@ def check_diagrams(rep, cases: List[dict], model_ok: bool, kf_classes: set, tag:
         svals = core.coq_values(RUN, HEADER_SPEC, [f"spec_kind_sx {ty_coq(rt, c['ids'])}" for rt, _, c, _ in items],
                                 chunk=400, tag=tag + "_kinds")
         for (rt, pv, c, fk), sv in zip(items, svals):
+            if stream_of(c) == "namesake_missing":
+                pv, sv = pv[:8], sv[:8]   # which namesake a retried name denotes is the edges comparison (open findings C17-e/f)
             if pv != sv:
                 rep.violation({"kind": "counterexample", "part": "classification", "field": fk, "annotation": ty_py(rt, False),
                                "impl": dict(zip(PRED_NAMES[:9], pv)), "spec": dict(zip(PRED_NAMES[:9], sv)),
@@ -1442,7 +1491,7 @@ def replay_finding(rep, f, model_ok: bool) -> None:
                                "spec": impl, "python": snippet(case),
                                "explanation": "the witness of a repaired finding fails again (source changed, or the view no longer drops the inherited edge)"})
             return
-    if f.cls in ("K_union_none_first", "K_two_unresolved", "K_namesake_retry"):
+    if f.cls in ("K_union_none_first", "K_two_unresolved", "K_namesake_retry", "K_missing_namesake"):
         still = impl != pyspec and (not model_ok or impl == model)
         if f.kind == "open":
             if still:
@@ -1522,14 +1571,15 @@ def _run(tier: str, seed: int, replay=None) -> int:
     corpus = [(n, w) for n, w in load_corpus()]
     corpus_cases = [finish_case(dict(w["case"])) for n, w in corpus if not n.startswith("kf_")]
     rng = core.Rng(seed)
-    n_f, n_sh, n_ov, n_un, n_tc, n_lo, n_lm, n_rb, n_ns, n_nt = ((150, 30, 20, 40, 40, 50, 15, 40, 40, 25) if tier == "quick"
-                                                                   else (4000, 700, 400, 700, 700, 900, 250, 700, 700, 400))
+    n_f, n_sh, n_ov, n_un, n_tc, n_lo, n_lm, n_rb, n_ns, n_nt, n_nm = ((150, 30, 20, 40, 40, 50, 15, 40, 40, 25, 40) if tier == "quick"
+                                                                         else (4000, 700, 400, 700, 700, 900, 250, 700, 700, 400, 500))
     cases = list(corpus_cases)
     for stream, n in (("F", n_f), ("shared", n_sh), ("override", n_ov), ("unsupported", n_un), ("typecheck", n_tc),
-                      ("local", n_lo), ("local_missing", n_lm), ("rebuild", n_rb), ("namesake", n_ns), ("namesake_tc", n_nt)):
-        r = rng.fork({"F": 1, "shared": 2, "override": 3, "unsupported": 4, "typecheck": 5, "local": 6, "local_missing": 7, "rebuild": 8, "namesake": 9, "namesake_tc": 10}[stream])
+                      ("local", n_lo), ("local_missing", n_lm), ("rebuild", n_rb), ("namesake", n_ns), ("namesake_tc", n_nt), ("namesake_missing", n_nm)):
+        r = rng.fork({"F": 1, "shared": 2, "override": 3, "unsupported": 4, "typecheck": 5, "local": 6, "local_missing": 7, "rebuild": 8, "namesake": 9, "namesake_tc": 10, "namesake_missing": 11}[stream])
         for _ in range(n):
-            cases.append(gen_namesake(r, stream) if stream.startswith("namesake") else gen_program(r, stream))
+            cases.append(gen_namesake_missing(r) if stream == "namesake_missing" else
+                         gen_namesake(r, stream) if stream.startswith("namesake") else gen_program(r, stream))
     t1 = time.time()
     dist = check_diagrams(rep, cases, model_ok, kf_open)
     dist["wall_s"] = round(time.time() - t1, 1)
